@@ -69,7 +69,7 @@ PROPS = {
         ],
     },
     "C06": {
-        "workloads": [("conn", "c01", 3000, 40000, None), ("conn", "c05", 3000, 40000, None), ("hist", "c08", 800, 10000, None), ("examples", "c06", 1200, 15000, None)],
+        "workloads": [("conn", "c01", 3000, 40000, None), ("conn", "c05", 3000, 40000, None), ("hist", "c08", 800, 10000, None), ("examples", "c06", 1200, 15000, None), ("ns", "c18", 4000, 50000, None)],
         "rule": (
             "the closedness monitor (sim/netview.py closed_violations: unique names, definition before use, every port names a declared signal, every instance "
             "target resolves and has each port connected exactly once, every connection target declared / in range / of the port's width, from_proto and the spice and "
@@ -96,7 +96,8 @@ PROPS = {
         ],
     },
     "C08": {
-        "workloads": [("hist", "c08", 2500, 40000, None)],
+        # generator bodies that raise (or are interrupted) on their first runs are exercised by the genp workload
+        "workloads": [("hist", "c08", 2300, 36000, None), ("genp", "c09", 2000, 30000, None)],
         "rule": (
             "one case = a C07 session with 0-2 injected failures (fault pass at a drawn pass position and module; exception inside a subclassed "
             "rewriting pass between pop and reconnect; planted width fault with later repair) each followed by drawn continuations "
